@@ -318,13 +318,14 @@ def k_plane_cylinder(
   plane_pos: wp.vec3,
   cylinder_center: wp.vec3,
   cylinder_axis: wp.vec3,
+  cylinder_xaxis: wp.vec3,
   cylinder_radius: float,
   cylinder_half_height: float,
   dist_out: wp.array[float],
   pos_out: wp.array[wp.vec3],
   normal_out: wp.array[wp.vec3],
 ):
-  dist, pos, n = plane_cylinder(plane_normal, plane_pos, cylinder_center, cylinder_axis, cylinder_radius, cylinder_half_height)
+  dist, pos, n = plane_cylinder(plane_normal, plane_pos, cylinder_center, cylinder_axis, cylinder_xaxis, cylinder_radius, cylinder_half_height)
   for i in range(4):
     dist_out[i] = dist[i]
     pos_out[i] = pos[i]
